@@ -33,7 +33,7 @@ static void gen_common(Plan* p, Rng* r, int tier, long idx, int which) {
     plan_set(p, "hint_reinit", (int64_t)rng_below(r, 2));
     plan_set(p, "prelude", (idx % 4) == 2 ? 1 + (int64_t)(rng_u64(r) >> 40) : 0);
     sim_sched_plan_defaults(p, r, 0);
-    plan_set(p, "sched_step_cap", 6000000);
+    plan_set(p, "sched_step_cap", tier ? 80000000 : 6000000);   /* thorough inputs are 4-8x larger: the budget of scheduling points follows */
 }
 static void gen02(Plan* p, Rng* r, int t, long i) { gen_common(p, r, t, i, W_C02); }
 static void gen05(Plan* p, Rng* r, int t, long i) { gen_common(p, r, t, i, W_C05); }
